@@ -61,6 +61,7 @@ func Render(d Doc) string {
 		"{for: " + forMatrix + ", cmd: 'echo {{.ITEM}}'}",
 		"{for: " + p("for.list", "[a, b]") + ", cmd: 'echo {{.ITEM}}'}",
 		"{for: {var: " + p("for.var", "GV") + "}, cmd: 'echo {{.ITEM}}'}",
+		"{for: {var: GV, matrix: " + p("for.varmatrix", "null") + "}, cmd: 'echo {{.ITEM}}'}",
 		"{cmd: echo p, platforms: " + p("cmd.platforms", "[linux]") + ", set: " + p("cmd.set", "[e]") + "}",
 	}, ", ") + "]"
 	deps := "[" + p("dep.value", "{task: "+p("dep.task", "other")+", vars: "+p("dep.vars", "{A: b}")+"}") + ", {for: " + p("dep.for", "[x]") + ", task: other}]"
